@@ -28,6 +28,7 @@ EXPLANATION = (
     "mailbox-name value with the constant 'inbox' applies lower()/casefold() to it; (R17.3) see C05 R5.5; (R17.4) in "
     "do_list the decision that sets \\HasChildren/\\HasNoChildren does not depend only on the names returned for this "
     "LIST's pattern. Decides these clauses, not '*'/'%' matching semantics or model equality over histories."
+    " (R17.5) the LIST matching path has a case-insensitive provision for the inbox (stored as 'inbox'); (R17.6) the children of the inbox are looked for under the stored name; (R17.7) the trailing delimiter of a LIST reference survives normalisation (parser records it, do_list restores it); (R17.8) name parser and pattern compiler both fold a first level INBOX."
 )
 RULE_TEXT = "instances: each namespace effect with its matching db/cache effect; each 'inbox' comparison site; the \\HasChildren decision; non-trivial = CFG/def-use query"
 ASSUMPTIONS = ["the mailboxes table and the directory tree are the only two sources of truth for the namespace", "not decided: pattern semantics on values; model equality over histories with restarts"]
